@@ -12,6 +12,7 @@ CONSTANTS
   PREC = 100
   UNBOND = 1
   HOLDOPS = {"o1"}
+  HOOKED = TRUE
   AMOUNTS = {1,2}
   NONCES = {1,2}
   TXHS = {"t1"}
